@@ -187,6 +187,8 @@ def header_sym(n):
     return b':c:\0' + bytes([n >> 8, n & 255]) + b'\0\0'
 
 
+FUTURE1 = compress.PICO8_FUTURE_CODE1.decode('latin-1')
+FUTURE2 = compress.PICO8_FUTURE_CODE2.decode('latin-1')
 Q = {'_budget': 300}
 HARNESSES = [
     Harness('roundtrip', roundtrip,
@@ -194,7 +196,11 @@ HARNESSES = [
             thorough=[dict(Q, n=n, _budget=1200) for n in (0, 1, 2, 3, 4, 5,
                                                           6)]),
     Harness('update60', roundtrip,
-            quick=[dict(Q, n=2, mid='_update60', pre='if', post='')],
+            quick=[dict(Q, n=2, mid='_update60', pre='if', post=''),
+                   # PICO-8's own compatibility line written out in the
+                   # middle of a program is ordinary code
+                   dict(Q, n=2, mid=FUTURE2, pre='', post='\nx=1'),
+                   dict(Q, n=1, mid=FUTURE1, pre='y=2\n', post='\n')],
             thorough=[dict(Q, n=2, mid='_update60', pre='', post='\n'),
                       dict(Q, n=2, mid='_update60', pre='if', post=''),
                       dict(Q, n=4, mid='_update60', pre='', post='',
